@@ -19,7 +19,15 @@ MUT = "spec_classes.utils.mutation"
 CORE = "spec_classes.methods.core"
 
 deq = z3.Function("deq", Val, Val, B)               # deep equality of two values (A-COPY)
-masked_ro = z3.Function("masked_ro", Val, Val, B)   # raw setattr(obj, name) is refused (descriptor without a setter)
+masked_ro_c = z3.Function("masked_ro", I, Val, B)   # (class, name): raw assignment is refused by a class-level descriptor without setter
+
+
+def masked_ro(obj, name, st=None, eng=None):
+    st = st or _CUR[0]
+    return masked_ro_c(st.get("cls_of", a_of(obj)), name)
+
+
+_CUR = [None]
 
 
 def atomic(st, v):
@@ -95,8 +103,8 @@ def assume_spec_shape(eng, st, v):
     # raw assignment is refused only for attributes masked by a descriptor (property without setter)
     nq = z3.Const("n!mr", Val)
     mm, asp = managed(eng, st, v, nq)
-    st.assume(z3.ForAll([nq], z3.Implies(masked_ro(v, nq), z3.And(is_str(nq), mm, b_of(fld(st, asp, "is_masked")))),
-                        patterns=[masked_ro(v, nq)]))
+    st.assume(z3.ForAll([nq], z3.Implies(masked_ro(v, nq, st), z3.And(is_str(nq), mm, b_of(fld(st, asp, "is_masked")))),
+                        patterns=[masked_ro(v, nq, st)]))
     # class attributes (metadata records, methods, defaults ...) are objects that existed before the call
     cq, sq = z3.Int("c!ca"), z3.Int("s!ca")
     st.assume(z3.ForAll([cq, sq], z3.Implies(is_ref(clsattr(cq, sq)), z3.And(a_of(clsattr(cq, sq)) >= 0,
@@ -153,7 +161,7 @@ def raw_setattr(eng, st, pos, kw, fx):
     name = eng.to_val(st, name)
     val = eng.to_val(st, val)
     out = []
-    for s2, ro in eng.split(st, masked_ro(obj, name), note="descriptor refuses assignment"):
+    for s2, ro in eng.split(st, masked_ro(obj, name, st), note="descriptor refuses assignment"):
         if ro:
             out.append(eng.exc(s2, "AttributeError", note="can't set attribute"))
         else:
@@ -631,8 +639,9 @@ class MutateAttr(SpecArgs):
                 is_ref(r), a_of(r) >= st.alloc, r != o, c.post.get("cls_of", a_of(r)) == st.get("cls_of", a_of(o)))))),
             ("c01.receiver", z3.Implies(z3.Not(same), unchanged_obj(st, c.post, o))),
             ("c05.value", z3.Implies(z3.Not(noop), z3.Select(D(c.post, r), s_of(a)) == v)),
-            ("c05.others", z3.Implies(z3.Not(noop), frame_slots(eng, st, c.post, o, r, a, same, defs,
-                                                                 skip=z3.Or(skip, z3.Not(has_deps))))),
+            # (for a foreign, non-spec object copied by copy.deepcopy only deep equality is known: A-COPY)
+            ("c05.others", z3.Implies(z3.And(z3.Not(noop), z3.Or(same, sp)),
+                                      frame_slots(eng, st, c.post, o, r, a, same, defs, skip=z3.Or(skip, z3.Not(has_deps))))),
             ("c11.invalidated", z3.Implies(z3.And(z3.Not(noop), z3.Not(skip), has_deps), all_cleared(eng, st, c.post, o, r, a))),
             ("c11.monotone", z3.Implies(same, monotone(eng, st, c.post, o, but=a))),
         ]
@@ -654,7 +663,7 @@ class MutateAttr(SpecArgs):
 
     def exc_attr(self, c):
         st, o = c.pre, c.obj
-        return [("c04.unchanged", unchanged_obj(st, c.post, o)), ("why", masked_ro(o, c.attr))]
+        return [("c04.unchanged", unchanged_obj(st, c.post, o)), ("why", masked_ro(o, c.attr, st))]
 
     def exc_any(self, c):
         eng, st, o = c.eng, c.pre, c.obj
@@ -742,3 +751,339 @@ class DelAttr(GenMethod):
         a, force, skip, man, aspec, dflt, raw = self.parts(c)
         has_deps = eng.truthy(st, invmap(eng, st, o))
         return [("c04.unchanged", z3.Implies(z3.Or(skip, z3.Not(has_deps)), unchanged_obj(st, c.post, o)))] + not_attr_error(c)
+
+
+# ------------------------------------------------------------------------------------------------
+# prepare_attr_value (assumed here; see contracts/spec_values.py for its body) and keyword bundles
+# ------------------------------------------------------------------------------------------------
+kw_nil = z3.Const("kw_nil", Val)
+kw_cons = z3.Function("kw_cons", Val, Val, Val, Val)
+prepared_kw = z3.Function("prepared_kw", Val, Val, Val, Val, Val)          # (attr_spec, instance, value, kwargs bundle)
+prepared_kw_raises = z3.Function("prepared_kw_raises", Val, Val, Val, Val, B)
+
+
+def kw_bundle(eng, st, kw):
+    """a **kwargs mapping as one value (names sorted): the argument of the uninterpreted preparer"""
+    if kw is None or (is_val(kw) and False):
+        return kw_nil
+    if isinstance(kw, PKwargs):
+        if kw.rest is not None:
+            raise Unsupported("symbolic **kwargs in a keyword bundle")
+        b = kw_nil
+        for n in sorted(kw.items, reverse=True):
+            b = kw_cons(STR.val(n), eng.to_val(st, kw.items[n]), b)
+        return b
+    if is_val(kw):
+        return z3.If(is_none(kw), kw_nil, kw)
+    raise Unsupported("keyword bundle of %r" % (kw,))
+
+
+class PrepareAssumed(Contract):
+    """prepare_attr_value(attr_spec, instance, value, attrs): ASSUMED in the core proofs (A-CB: the preparer,
+    item preparer and constructors it runs are pure deterministic callbacks): returns the prepared value,
+    may raise, modifies nothing that existed before; a fresh-or-caller-provided value"""
+    qual = MUT + ":prepare_attr_value"
+    assumed = True
+    raw_args = True
+    reason = "pure function of its arguments (A-CB); its body (mutate_value + collection mutator) is under contract in C05/C06"
+    raises = {"*": "exc_any"}
+
+    def args4(self, c):
+        st = c.pre
+        return (c.eng.to_val(st, c.attr_spec), c.eng.to_val(st, c.instance), c.eng.to_val(st, c.value),
+                kw_bundle(c.eng, st, c.attrs if not (is_val(c.attrs)) else c.attrs))
+
+    def result(self, c):
+        return prepared_kw(*self.args4(c))
+
+    def post(self, c):
+        return [("ok", z3.Not(prepared_kw_raises(*self.args4(c)))), ("value", z3.Not(is_absent(c.res))),
+                ("allocated", z3.Implies(is_ref(c.res), a_of(c.res) < c.post.alloc))]
+
+    def exc_any(self, c):
+        return [("raises", prepared_kw_raises(*self.args4(c)))] + not_attr_error(c)
+
+
+register(PrepareAssumed)
+
+
+def attr_of(eng, st, obj, name):
+    """the Attr record of obj's class for `name`"""
+    A = a_of(fld(st, meta_of(eng, st, obj), "attrs"))
+    return z3.Select(st.get("dval", A), kn(name))
+
+
+@register
+class SetAttr(GenMethod):
+    """obj.attr = value on a spec instance == mutate_attr in place on the prepared value"""
+    qual = SETATTR_Q
+    outer, inner = CORE + ":SetAttrMethod.build_method", "__setattr__"
+    raises = {"FrozenInstanceError": "exc_frozen", "TypeError": "exc_type", "AttributeError": "exc_attr", "*": "exc_any"}
+
+    def setup(self, c):
+        self.typed(c, c.self, c.attr)
+        st = c.pre
+        st.assume(is_spec(c.eng, st, c.self), is_bool(c.force), is_bool(c.skip_invalidation))
+        assume_reach(c.eng, st, c.self)
+
+    def pre(self, c):
+        st = c.pre
+        a = c.eng.to_val(st, c.attr)
+        return [("spec", is_spec(c.eng, st, c.self)), ("attr", z3.And(is_str(a), a != STR.val("__spec_class__"))),
+                ("value", z3.Not(is_absent(c.eng.to_val(st, c.value)))),
+                ("force", is_bool(c.eng.to_val(st, c.force))), ("skip", is_bool(c.eng.to_val(st, c.skip_invalidation)))]
+
+    def modifies(self, c):
+        return [a_of(c.self)]
+
+    def parts(self, c):
+        eng, st, o = c.eng, c.pre, c.self
+        a = eng.to_val(st, c.attr)
+        v0 = eng.to_val(st, c.value)
+        man, aspec = managed(eng, st, o, a)
+        v = z3.If(man, prepared_kw(aspec, o, v0, kw_nil), v0)
+        return a, v0, v, man, aspec, b_of(eng.to_val(st, c.force)), b_of(eng.to_val(st, c.skip_invalidation))
+
+    def post(self, c):
+        eng, st, o = c.eng, c.pre, c.self
+        a, v0, v, man, aspec, force, skip = self.parts(c)
+        noop = is_sentinel(eng, st, v)
+        has_deps = eng.truthy(st, invmap(eng, st, o))
+        return [("c07.not-frozen", z3.Implies(z3.And(z3.Not(noop), frozen(eng, st, o)), z3.Or(force, initializing(eng, st, o)))),
+                ("c03.typed", z3.Implies(z3.And(z3.Not(noop), man), conforms(v, fld(st, aspec, "type")))),
+                ("c05.noop", z3.Implies(noop, unchanged_obj(st, c.post, o))),
+                ("c05.value", z3.Implies(z3.Not(noop), z3.Select(D(c.post, o), s_of(a)) == v)),
+                ("c05.others", z3.Implies(z3.Not(noop), frame_slots(eng, st, c.post, o, o, a, True, None,
+                                                                     skip=z3.Or(skip, z3.Not(has_deps))))),
+                ("c11.invalidated", z3.Implies(z3.And(z3.Not(noop), z3.Not(skip), has_deps), all_cleared(eng, st, c.post, o, o, a))),
+                ("c11.monotone", monotone(eng, st, c.post, o, but=a))]
+
+    def exc_frozen(self, c):
+        eng, st, o = c.eng, c.pre, c.self
+        a, v0, v, man, aspec, force, skip = self.parts(c)
+        return [("c07.why", z3.And(frozen(eng, st, o), z3.Not(force), z3.Not(initializing(eng, st, o)))),
+                ("c04.unchanged", unchanged_obj(st, c.post, o))]
+
+    def exc_type(self, c):
+        eng, st, o = c.eng, c.pre, c.self
+        a, v0, v, man, aspec, force, skip = self.parts(c)
+        return [("c03.why", z3.And(man, z3.Not(conforms(v, fld(st, aspec, "type"))))), ("c04.unchanged", unchanged_obj(st, c.post, o))]
+
+    def exc_attr(self, c):
+        st, o = c.pre, c.self
+        return [("c04.unchanged", unchanged_obj(st, c.post, o))]
+
+    def exc_any(self, c):
+        eng, st, o = c.eng, c.pre, c.self
+        a, v0, v, man, aspec, force, skip = self.parts(c)
+        has_deps = eng.truthy(st, invmap(eng, st, o))
+        return [("c04.unchanged", z3.Implies(z3.Or(skip, z3.Not(has_deps)), unchanged_obj(st, c.post, o)))] + not_attr_error(c)
+
+
+# ------------------------------------------------------------------------------------------------
+# scalar helpers: with_<attr>, reset_<attr>, reset
+# ------------------------------------------------------------------------------------------------
+SCALAR = "spec_classes.methods.scalar"
+TOP = "spec_classes.methods.toplevel"
+
+
+class Helper(SpecArgs):
+    """typing shared by the helper implementations: self is a spec instance; attr_spec is the record of
+    self's class for attr_spec.name (A-META: the helper was generated for that attribute)"""
+    def helper_setup(self, c, with_attr=True):
+        st = c.pre
+        self.typed(c, c.self)
+        st.assume(is_spec(c.eng, st, c.self))
+        assume_reach(c.eng, st, c.self)
+        if hasattr(c, "_inplace"):
+            st.assume(is_bool(c._inplace))
+        if with_attr:
+            a = c.attr_spec
+            nm = fld(st, a, "name")
+            man, rec = managed(c.eng, st, c.self, nm)
+            st.assume(wf_attr(st, a), man, rec == a, nm != STR.val("__spec_class__"))
+            ground_invmap_facts(c.eng, st, c.self, [nm, STR.val("*")])
+
+    def helper_pre(self, c, with_attr=True):
+        st = c.pre
+        out = [("spec", is_spec(c.eng, st, c.self))]
+        if with_attr:
+            a = c.eng.to_val(st, c.attr_spec)
+            nm = fld(st, a, "name")
+            man, rec = managed(c.eng, st, c.self, nm)
+            out += [("attr-record", z3.And(man, rec == a, is_str(nm)))]
+        return out
+
+    def in_place(self, c):
+        eng, st, o = c.eng, c.pre, c.self
+        return z3.Or(b_of(eng.to_val(st, c._inplace)), dnc_class(eng, st, o))
+
+
+@register
+class WithAttr(Helper):
+    """with_<attr>(v, **attrs): the receiver's state with attr replaced by the prepared v (on a copy
+    unless _inplace); _if=False / MISSING / UNCHANGED: the receiver itself, untouched"""
+    qual = SCALAR + ":WithAttrMethod.with_attr"
+    raises = {"FrozenInstanceError": "exc_frozen", "TypeError": "exc_type", "AttributeError": "exc_attr", "*": "exc_any"}
+    kwargs_names = ()
+
+    def setup(self, c):
+        self.helper_setup(c)
+        self.defs = slot_defs(c.eng, c.pre, c.pre, c.self)
+
+    def pre(self, c):
+        return self.helper_pre(c) + [("inplace", is_bool(c.eng.to_val(c.pre, c._inplace))),
+                                     ("value", z3.Not(is_absent(c.eng.to_val(c.pre, c._new_value))))]
+
+    def modifies(self, c):
+        return [(a_of(c.self), self.in_place(c))]
+
+    def parts(self, c):
+        eng, st, o = c.eng, c.pre, c.self
+        a = eng.to_val(st, c.attr_spec)
+        nm = fld(st, a, "name")
+        v = prepared_kw(a, o, eng.to_val(st, c._new_value), kw_bundle(eng, st, c.attrs))
+        active = eng.truthy(st, eng.to_val(st, c._if))
+        return a, nm, v, active, z3.Or(z3.Not(active), is_sentinel(eng, st, v))
+
+    def post(self, c):
+        eng, st, o = c.eng, c.pre, c.self
+        a, nm, v, active, noop = self.parts(c)
+        same = self.in_place(c)
+        r = c.res
+        inplace = b_of(eng.to_val(st, c._inplace))
+        defs = self.defs if c.side == "verify" else slot_defs(eng, c.post, st, o)
+        has_deps = eng.truthy(st, invmap(eng, st, o))
+        return [
+            ("c05.noop", z3.Implies(noop, z3.And(r == o, unchanged_obj(st, c.post, o)))),
+            ("c07.not-frozen", z3.Implies(z3.And(z3.Not(noop), frozen(eng, st, o), inplace), initializing(eng, st, o))),
+            ("c03.typed", z3.Implies(z3.Not(noop), conforms(v, fld(st, a, "type")))),
+            ("c01.identity", z3.Implies(z3.Not(noop), z3.If(same, r == o, z3.And(
+                is_ref(r), a_of(r) >= st.alloc, r != o, c.post.get("cls_of", a_of(r)) == st.get("cls_of", a_of(o)))))),
+            ("c01.receiver", z3.Implies(z3.Not(same), unchanged_obj(st, c.post, o))),
+            ("c05.value", z3.Implies(z3.Not(noop), z3.Select(D(c.post, r), s_of(nm)) == v)),
+            ("c05.others", z3.Implies(z3.Not(noop), frame_slots(eng, st, c.post, o, r, nm, same, defs, skip=z3.Not(has_deps)))),
+            ("c11.invalidated", z3.Implies(z3.And(z3.Not(noop), has_deps), all_cleared(eng, st, c.post, o, r, nm))),
+        ]
+
+    def exc_frozen(self, c):
+        eng, st, o = c.eng, c.pre, c.self
+        return [("c07.why", frozen(eng, st, o)), ("c04.unchanged", unchanged_obj(st, c.post, o))]
+
+    def exc_type(self, c):
+        eng, st, o = c.eng, c.pre, c.self
+        a, nm, v, active, noop = self.parts(c)
+        return [("c03.why", z3.Not(conforms(v, fld(st, a, "type")))), ("c04.unchanged", unchanged_obj(st, c.post, o))]
+
+    def exc_attr(self, c):
+        return [("c04.unchanged", unchanged_obj(c.pre, c.post, c.self))]
+
+    def exc_any(self, c):
+        eng, st, o = c.eng, c.pre, c.self
+        has_deps = eng.truthy(st, invmap(eng, st, o))
+        return [("c04.unchanged", z3.Implies(z3.Or(z3.Not(self.in_place(c)), z3.Not(has_deps)), unchanged_obj(st, c.post, o)))] + \
+            not_attr_error(c)
+
+
+@register
+class ResetAttr(Helper):
+    """reset_<attr>(): like `del obj.attr` on a copy (or in place): the attribute is removed or back at a fresh default"""
+    qual = SCALAR + ":ResetAttrMethod.reset_attr"
+    raises = {"FrozenInstanceError": "exc_frozen", "AttributeError": "exc_attr", "*": "exc_any"}
+
+    def setup(self, c):
+        self.helper_setup(c)
+        self.defs = slot_defs(c.eng, c.pre, c.pre, c.self)
+
+    def pre(self, c):
+        return self.helper_pre(c) + [("inplace", is_bool(c.eng.to_val(c.pre, c._inplace)))]
+
+    def modifies(self, c):
+        return [(a_of(c.self), self.in_place(c))]
+
+    def post(self, c):
+        eng, st, o = c.eng, c.pre, c.self
+        a = eng.to_val(st, c.attr_spec)
+        nm = fld(st, a, "name")
+        active = eng.truthy(st, eng.to_val(st, c._if))
+        same = self.in_place(c)
+        r = c.res
+        x1 = z3.Select(D(c.post, r), s_of(nm))
+        dflt = fld(st, a, "default")
+        raw = z3.Or(dflt == sentinel(eng, st, "MISSING"), b_of(fld(st, a, "is_masked")))
+        defs = self.defs if c.side == "verify" else slot_defs(eng, c.post, st, o)
+        has_deps = eng.truthy(st, invmap(eng, st, o))
+        return [("c05.noop", z3.Implies(z3.Not(active), z3.And(r == o, unchanged_obj(st, c.post, o)))),
+                ("c01.identity", z3.Implies(active, z3.If(same, r == o, z3.And(is_ref(r), a_of(r) >= st.alloc, r != o)))),
+                ("c01.receiver", z3.Implies(z3.Not(same), unchanged_obj(st, c.post, o))),
+                ("c08.slot", z3.Implies(active, z3.If(raw, is_absent(x1), z3.And(deq(x1, dflt), z3.Not(is_absent(x1)))))),
+                ("c05.others", z3.Implies(active, frame_slots(eng, st, c.post, o, r, nm, same, defs, skip=z3.Not(has_deps)))),
+                ("c11.invalidated", z3.Implies(z3.And(active, has_deps), all_cleared(eng, st, c.post, o, r, nm)))]
+
+    def exc_frozen(self, c):
+        # KNOWN FINDING C07-frozen-private-copy: also raised when the deletion happens on the private copy
+        return [("c07.why", frozen(c.eng, c.pre, c.self)), ("c04.unchanged", unchanged_obj(c.pre, c.post, c.self))]
+
+    def exc_attr(self, c):
+        return [("c04.unchanged", unchanged_obj(c.pre, c.post, c.self))]
+
+    def exc_any(self, c):
+        eng, st, o = c.eng, c.pre, c.self
+        has_deps = eng.truthy(st, invmap(eng, st, o))
+        return [("c04.unchanged", z3.Implies(z3.Or(z3.Not(self.in_place(c)), z3.Not(has_deps)), unchanged_obj(st, c.post, o)))] + \
+            not_attr_error(c)
+
+
+@register
+class Reset(Helper):
+    """reset(): every managed attribute is cleared (removed, or back at a fresh default) on a copy / in place"""
+    qual = TOP + ":ResetMethod.reset"
+    raises = {"FrozenInstanceError": "exc_frozen", "*": "exc_any"}
+
+    def setup(self, c):
+        self.helper_setup(c, with_attr=False)
+
+    def pre(self, c):
+        return self.helper_pre(c, with_attr=False) + [("inplace", is_bool(c.eng.to_val(c.pre, c._inplace)))]
+
+    def modifies(self, c):
+        return [(a_of(c.self), self.in_place(c))]
+
+    def post(self, c):
+        eng, st, o = c.eng, c.pre, c.self
+        active = eng.truthy(st, eng.to_val(st, c._if))
+        same = self.in_place(c)
+        r = c.res
+        k = z3.Const("k!rs", Val)
+        A = a_of(fld(st, meta_of(eng, st, o), "attrs"))
+        return [("c05.noop", z3.Implies(z3.Not(active), z3.And(r == o, unchanged_obj(st, c.post, o)))),
+                ("c01.identity", z3.Implies(active, z3.If(same, r == o, z3.And(is_ref(r), a_of(r) >= st.alloc, r != o)))),
+                ("c01.receiver", z3.Implies(z3.Not(same), unchanged_obj(st, c.post, o))),
+                ("c05.all-cleared", z3.Implies(active, z3.ForAll([k], z3.Implies(z3.Select(st.get("dhas", A), k),
+                                                                                   cleared(eng, c.post, r, k)))))]
+
+    def exc_frozen(self, c):
+        return [("c07.why", frozen(c.eng, c.pre, c.self)), ("c04.unchanged", z3.Implies(z3.Not(self.in_place(c)), unchanged_obj(c.pre, c.post, c.self)))]
+
+    def exc_any(self, c):
+        return [("c04.unchanged", z3.Implies(z3.Not(self.in_place(c)), unchanged_obj(c.pre, c.post, c.self)))] + not_attr_error(c)
+
+    def inv0(lc, st, i):
+        eng = lc.eng
+        pre = lc.entry.pre
+        o = lc.args["self"]
+        cur = st.env["self"]
+        p = lc.plan
+        j = z3.Int("j!rs")
+        kj = z3.Select(p.arr, j)
+        first = lc.pre
+        return [("self", z3.And(cur == lc.pre.env["self"], is_ref(cur))),
+                ("receiver", z3.Implies(cur != o, unchanged_obj(pre, st, o))),
+                ("spec", z3.And(is_spec(eng, st, cur), meta_of(eng, st, cur) == meta_of(eng, pre, o))),
+                ("done", z3.ForAll([j], z3.Implies(z3.And(j >= 0, j < i), cleared(eng, st, cur, kj)),
+                                   patterns=[kj] if pattern_ok(p.arr) else [])),
+                ("monotone", monotone(eng, first, st, cur))]
+
+    def mod0(lc, pre):
+        return [a_of(pre.env["self"])]
+    loops = {0: LoopSpec(inv0, mod0)}
